@@ -600,6 +600,7 @@ func (w *World) Exec(s *Step) {
 		}
 		t.CommitStep[0] = w.StepNo
 		cctx := context.WithValue(ctx, util.SessionID, uint64(t.ID+1))
+		txn.SetSessionID(uint64(t.ID + 1)) // the committer of a pessimistic transaction exists since its first LockKeys (session id 0)
 		t.MaxTSOBeforeCommit = w.Cl.MaxIssued()
 		t.CommitCallEv = w.Cl.Trace.Event()
 		err := txn.Commit(cctx)
